@@ -61,7 +61,7 @@ PathOf(R, cn, fuel) ==
 
 Elem(o, ro, cn, sub, kind, t) ==
   [o |-> o, ro |-> ro, cont |-> ContKey(cn, sub), sub |-> sub, par |-> cn[2], kind |-> kind, t |-> t,
-   root |-> cn[1], q |-> <<>>]
+   root |-> cn[1], q |-> <<>>, w8 |-> 1]
 
 Emit(r, R2, ins, del) ==
   /\ upd' = Append(upd, [ins |-> ins, del |-> del])
